@@ -47,6 +47,8 @@ def seeded():
             rows.append(f"| `{name}` | {d['property']} | {cell(d.get('summary', ''), 240)} | — | *obsolete*: {cell(d.get('obsolete', ''), 200)} |")
             continue
         det = ", ".join(d.get("detected_by") or []) or ("**none** (out of reach, see below)" if d.get("out_of_reach") else "**none**")
+        if d.get("missed_at_first") and d.get("detected_by"):
+            det += " *(missed at first; closed by strengthening the check)*"
         rows.append(f"| `{name}` | {d['property']} | {cell(d.get('summary', ''), 240)} | {cell(d.get('needs', ''), 200)} | {det} |")
     return "\n".join(rows)
 
